@@ -55,7 +55,17 @@ class BoomBase(BaseException):
 
 
 # ways of leaving the block exceptionally; case["exc"] indexes this list (default 0)
-EXITS = [Boom, BoomBase, KeyboardInterrupt, GeneratorExit]
+class FalsyBoom(Exception):
+    """an exception whose instance is falsy (`if exc:` differs from `if exc is not None:`)"""
+
+    def __bool__(self):
+        return False
+
+    def __len__(self):
+        return 0
+
+
+EXITS = [Boom, BoomBase, KeyboardInterrupt, GeneratorExit, FalsyBoom, KeyError]
 
 
 def run_case(case, ctx):
@@ -202,6 +212,20 @@ def run_case(case, ctx):
         got = None if isinstance(r, Raised) else r
         if got != now.get(k):
             raise Violation("scratch-buffer-not-empty", "after the batch scratch[%s]=%r, wrapped has %r" % (k, got, now.get(k)))
+
+    # a later batch on the SAME object with default arguments: deletes were not requested, so a
+    # buffered delete of an existing key must not reach the wrapped database - whatever the
+    # earlier batch asked for
+    victim = next((k for k in KEYS if k in now), None)
+    if victim is not None:
+        def default_batch():
+            with sdb.batch_commit():
+                del sdb[victim]
+
+        cut(default_batch)
+        if wrapped.raw() != now:
+            raise Violation("scratch-commit", "a later batch_commit() with default arguments applied a buffered delete (do_deletes of the earlier batch was %r)" % dd)
+        ctx.count("default_argument_batches")
 
     def empty():
         with sdb.batch_commit(do_deletes=True):
